@@ -1243,6 +1243,12 @@ func (agents *Agents) AgentsAppend(demon *Agent) []*Agent {
 func getWindowsVersionString(OsVersion []int) string {
 	var WinVersion = "Unknown"
 
+	// major, minor, product type, service pack, build: a shorter list (a third
+	// party agent registering with "OS Version": "5.15") names no Windows version
+	if len(OsVersion) < 5 {
+		return WinVersion
+	}
+
 	if OsVersion[0] == 10 && OsVersion[1] == 0 && OsVersion[2] != 0x0000001 && OsVersion[4] == 20348 {
 		WinVersion = "Windows 2022 Server 22H2"
 	} else if OsVersion[0] == 10 && OsVersion[1] == 0 && OsVersion[2] != 0x0000001 && OsVersion[4] == 17763 {
